@@ -145,6 +145,9 @@ def run(tier):
         runlib.deviation_must_fail(out, 'C09_Parts', 2, dev)
     out.assumptions = ['failure kinds are the ones of the property list; sabotage of the capture stream (closing sys.stdout) is not among them',
                        'plugin (pytest) front end: see C15']
+    from . import tracelib
+    tracelib.traced_replay(out, 'C09_Parts<=2', 'C09_Parts', 2)
+    tracelib.suite_phase(out, tier)
     return out.finish()
 
 
